@@ -1341,6 +1341,42 @@ func (l *log) GC(unusedFor time.Duration) error {""")]),
 }
 
 func (l *log) Get(offset int64) (message.Message, error) {""")]),
+ ("index header: reserved bits tested with and-not", [("pkg/index/format.go", """	case (data[1] & unusedBits) > 0:
+		return VUnknown, errReservedData""", """	case data[1]&^(timesBit|keysBit) != 0:
+		return VUnknown, errReservedData"""), ("pkg/index/format.go", """const unusedBits byte = 0b11111100
+""", """""")]),
+ ("Recover: stored index compared through EqualFunc over all fields", [("pkg/segment/segment.go", """	case !slices.Equal(items, restoreIndex):
+		indexVersion, _ = index.GetVersion(s.Index, s.Offset, params)
+		corruptedIndex = true
+	}""", """	case !slices.EqualFunc(items, restoreIndex, sameItem):
+		indexVersion, _ = index.GetVersion(s.Index, s.Offset, params)
+		corruptedIndex = true
+	}"""), ("pkg/segment/segment.go", "func (s Segment) NeedsReindex() (bool, error) {", """func sameItem(a, b index.Item) bool {
+	return a.Offset == b.Offset && a.Position == b.Position && a.Timestamp == b.Timestamp && a.KeyHash == b.KeyHash
+}
+
+func (s Segment) NeedsReindex() (bool, error) {""")]),
+ ("reader.ConsumeByKey: empty answers through a closure over the early next offset", [("log_reader.go", """	positions, err := ix.Keys(keyHash)
+	switch err {
+	case nil:
+		break
+	case index.ErrKeyNotFound:
+		return nextOffset, nil, nil
+	default:
+		return OffsetInvalid, nil, err
+	}
+""", """	atEnd := func() (int64, []message.Message, error) { return nextOffset, nil, nil }
+
+	positions, err := ix.Keys(keyHash)
+	switch err {
+	case nil:
+		break
+	case index.ErrKeyNotFound:
+		return atEnd()
+	default:
+		return OffsetInvalid, nil, err
+	}
+""")]),
 ]
 
 def main():
